@@ -118,6 +118,8 @@ def gen_reads(rng, n, plain1, plain2, paired, with_qual=True, revcomp=False):
             q = "".join(chr(33 + rng.choice([0, 2, 2, 10, 20, 30, 40, 40])) for _ in s) if with_qual else None
             return s, q
         s, q = one(plain1)
+        if r1 and rng.random() < 0.12:
+            _n, s, q = rng.choice(r1)        # the same bases and qualities once more, later in the file
         casava = rng.choice("YN")
         tag = f" length={rng.randint(0, 50)}" if rng.random() < 0.3 else ""
         r1.append((f"r{i} 1:{casava}:0:1{tag}", s, q))
@@ -174,23 +176,25 @@ def gen_case(rng, focus=()):
     with_qual = not p("fasta", 0.12)
     ext = "fastq" if with_qual else "fasta"
     if p("cut", 0.25):
-        argv += ["-u", str(rng.choice([-6, -3, -1, 1, 2, 5, 9]))]
+        argv += ["-u", str(rng.choice([-6, -3, -1, 1, 2, 5, 9, 0]))]
         if rng.random() < 0.3:
-            argv += ["-u", str(-rng.randint(1, 4) if int(argv[-1]) > 0 else rng.randint(1, 4))]
+            argv += ["-u", str(-rng.randint(1, 4) if int(argv[-1]) > 0 else rng.randint(0, 4))]
     if paired and p("cut", 0.2):
-        argv += ["-U", str(rng.choice([-4, -1, 1, 3]))]
+        argv += ["-U", str(rng.choice([-4, -1, 1, 3, 0]))]
     if with_qual and p("quality", 0.25):
         argv += ["-q", rng.choice(["10", "20", "15,10", "5,25", "0"])]
         if paired and rng.random() < 0.4:
             argv += ["-Q", rng.choice(["10", "0", "20,5"])]
     if with_qual and p("nextseq", 0.1):
-        argv += ["--nextseq-trim", str(rng.choice([10, 20]))]
+        argv += ["--nextseq-trim", str(rng.choice([10, 20, 20, 0]))]
     if p("polya", 0.12):
         argv.append("--poly-a")
     if p("length", 0.15):
-        argv += ["-l", str(rng.choice([-12, -5, 5, 10, 25]))]
+        argv += ["-l", str(rng.choice([-12, -5, 5, 10, 25, 0]))]
         if paired and rng.random() < 0.4:
-            argv += ["-L", str(rng.choice([-8, 6, 15]))]
+            argv += ["-L", str(rng.choice([-8, 6, 15, 0, 0]))]
+    elif paired and p("length", 0.05):
+        argv += ["-L", str(rng.choice([-8, 6, 15, 0, 0]))]       # -L alone: R2 only
     if p("trimn", 0.15):
         argv.append("--trim-n")
     if p("names", 0.1):
